@@ -6,6 +6,8 @@
      the repository's own test-suite still passes and the demo now fails, then runs the named checks (default: the property's
      own check) against the patched copy (VERIF_REPO) and reports which of them raise a VIOLATION.  With --keep the patch, the
      demo and a meta.json are stored under seeded/<name>/.
+  tools/seeded.py table
+     rewrites seeded/RESULTS.md from the stored meta.json files without running anything.
   tools/seeded.py rerun [name-substring]
      re-runs every stored seeded change (seeded/*/meta.json) against the checks recorded as catching it and against the
      property's own check, and rewrites seeded/RESULTS.md.
@@ -101,6 +103,9 @@ def evaluate(pid, patch, demo, checks, tier, keep=None, needs=""):
             old = json.load(open(os.path.join(d, "meta.json")))
             meta["needs_to_manifest"] = needs or old.get("needs_to_manifest", "")
             meta["history"] = old.get("history", []) + [{k: old.get(k) for k in ("caught_by", "ran")}]
+            for k in ("classification", "rebased"):  # notes written by hand stay
+                if k in old:
+                    meta[k] = old[k]
         json.dump(meta, open(os.path.join(d, "meta.json"), "w"), indent=1)
     return res
 
@@ -141,6 +146,30 @@ def main():
             f.write("| seeded change | property | valid (suite green, demo fails) | caught by (quick tier) | seconds |\n|---|---|---|---|---|\n")
             for r in rows:
                 f.write("| %s | %s | %s | %s | %s |\n" % r)
+        return 0
+    if a[0] == "table":
+        # rewrite seeded/RESULTS.md from the stored meta.json files (each holds the outcome of its most recent evaluation)
+        base = os.path.join(VERIF, "seeded")
+        rows = []
+        for name in sorted(os.listdir(base)):
+            mp = os.path.join(base, name, "meta.json")
+            if not os.path.exists(mp):
+                continue
+            m = json.load(open(mp))
+            note = m.get("classification") or ""
+            if m.get("rebased"):
+                note = (note + "; " if note else "") + "patch re-based onto the repaired tree"
+            rows.append((name, m["property"], m.get("valid_seed"), m.get("caught_by"),
+                         {c: v.get("seconds") for c, v in (m.get("checks_run") or {}).items()}, note.replace("|", "/")[:260]))
+        with open(os.path.join(base, "RESULTS.md"), "w") as f:
+            f.write("Most recent evaluation of every stored seeded change against the final checks (quick tier, VERIF_SEED=1; `tools/seeded.py rerun` "
+                    "re-evaluates them all, `tools/seeded.py table` rewrites this file from seeded/*/meta.json).\n\n")
+            f.write("| seeded change | property | valid (suite green, demo fails) | caught by (quick tier) | seconds | note |\n|---|---|---|---|---|---|\n")
+            for r in rows:
+                f.write("| %s | %s | %s | %s | %s | %s |\n" % r)
+        n_valid = sum(1 for r in rows if r[2])
+        n_caught = sum(1 for r in rows if r[2] and r[3])
+        print(len(rows), "changes;", n_valid, "valid;", n_caught, "caught;", "not caught:", [r[0] for r in rows if r[2] and not r[3]])
         return 0
     print(__doc__)
     return 2
